@@ -31,20 +31,20 @@ def _comps(A):
 
 def cases(tier, seed):
     out = []
-    md = 3 if tier == "quick" else 4
+    md = 3 if tier == "quick" else 6
     for m, n in itertools.product(range(1, md + 1), repeat=2):
         out.append({"kind": "basis", "cls": "basis", "shape": [m, n]})
-    nrep = 3 if tier == "quick" else 12
+    nrep = 3 if tier == "quick" else 40
     idx = 0
     for cls in gen.ENTRY_CLASSES:
         for rep in range(nrep):
             out.append({"kind": "random", "cls": "random:" + cls, "entry": cls, "idx": idx, "seed": seed,
-                        "maxd": 6 if tier == "quick" else 12})
+                        "maxd": 6 if tier == "quick" else 24})
             idx += 1
     # extreme magnitudes (squares under/overflow): only the clauses that copy / negate / permute data are judged (exact, T1)
     for cls in ("tiny170", "tiny300", "subnormal", "huge300", "mixed_extreme", "signed_zeros"):
         for rep in range(nrep):
-            out.append({"kind": "extreme", "cls": "extreme:" + cls, "entry": cls, "idx": idx, "seed": seed, "maxd": 6 if tier == "quick" else 12})
+            out.append({"kind": "extreme", "cls": "extreme:" + cls, "entry": cls, "idx": idx, "seed": seed, "maxd": 6 if tier == "quick" else 24})
             idx += 1
     out.append({"kind": "misc", "cls": "misc", "seed": seed})
     return out
